@@ -228,12 +228,14 @@ def conj (a : ArrS) : ArrS :=
 
 /-! ## take_slice, add_trivial_leg, squeeze -/
 
-/-- `take_slice(indices, axes)` (axes distinct) -/
+/-- `take_slice(indices, axes)`; as REPAIRED: repeated axes are rejected (the code under test accepts them and
+subtracts the charge twice) -/
 def takeSlice (a : ArrS) (indices : List Int) (axes : List Int) : Option ArrS :=
   match axes.mapM a.legIndex with
   | none => none
   | some axes =>
     if axes.length ≠ indices.length then none
+    else if !axes.Nodup then none
     else if axes.isEmpty then some a
     else
       match (axes.zip indices).mapM (fun ai => ((a.legAt ai.1).getQindex ai.2)) with
